@@ -56,8 +56,14 @@ type Runner struct {
 	NoRecord      bool         // tasks record their operations themselves
 	ReadOpened    func()       // VerifyAll opened its read transaction
 	ReadClosed    func()       // VerifyAll closed its read transaction
+	Outcome       []string     // observable outcomes of operations (twin comparison)
+	VerAtBegin    uint32       // content version counter when the running transaction began
 	OnTxEnd       func()       // called right after a write transaction ended (before post checks)
 	BeforeEnd     func()       // called right before Commit/Rollback/Close is invoked
+}
+
+func (r *Runner) out(format string, args ...interface{}) {
+	r.Outcome = append(r.Outcome, fmt.Sprintf(format, args...))
 }
 
 // fail records a violation, relabelled if AsProp is set.
@@ -128,6 +134,9 @@ func (r *Runner) OpenWith(o txfile.Options) error {
 	r.F = f
 	h := txfile.VerifHeaderSnapshot(f)
 	r.Cur().TxID = h.TxID
+	// let the new File's writer goroutine register with the scheduler before
+	// anything else is started (deterministic goroutine names)
+	r.E.Yield("opened")
 	return nil
 }
 
@@ -264,6 +273,7 @@ func (r *Runner) apply(op Op) bool {
 		r.txRoot = r.Cur().Root
 		r.txDirtyUnknown = false
 		r.txOOM = false
+		r.VerAtBegin = r.ver
 		r.txDataEnd = txfile.VerifAllocSnapshot(r.F).DataEnd
 		if got := tx.Root(); got != r.txRoot {
 			e.Fail("C03", "root-mismatch", "new write transaction sees root %d, expected %d", got, r.txRoot)
@@ -295,6 +305,7 @@ func (r *Runner) apply(op Op) bool {
 		if err != nil {
 			r.errOK(err, "Alloc")
 			r.txOOM = true
+			r.out("%s(%d): error", op.K, n)
 			return true
 		}
 		if len(pages) != n {
@@ -412,6 +423,7 @@ func (r *Runner) apply(op Op) bool {
 		p := r.txPages[id]
 		if err := p.h.Flush(); err != nil {
 			r.errOK(err, "Page.Flush")
+			r.out("pflush %d: error", id)
 			return true
 		}
 		p.flushed = true
@@ -423,6 +435,7 @@ func (r *Runner) apply(op Op) bool {
 		}
 		if err := r.tx.Flush(); err != nil {
 			r.errOK(err, "Tx.Flush")
+			r.out("txflush: error")
 			r.txDirtyUnknown = true
 			return true
 		}
@@ -610,6 +623,7 @@ func (r *Runner) checkAllocated(pages []*txfile.Page) {
 		}
 		r.txPages[id] = &pgState{id: id, h: h, isNew: true}
 		e.Obs("alloc %d", id)
+		r.out("alloc -> %d", id)
 	}
 }
 
@@ -657,6 +671,7 @@ func (r *Runner) doCommit() {
 	if err != nil {
 		r.Commits[ci].End = r.D.Marker(fmt.Sprintf("commit-err %d", next.N))
 		e.Probe("commit_failed")
+		r.out("commit: error")
 		if !r.errOK(err, "Commit") {
 			return
 		}
@@ -672,6 +687,7 @@ func (r *Runner) doCommit() {
 	r.Commits[ci].OK = true
 	r.Hist = append(r.Hist, next)
 	e.Probe("commit_ok")
+	r.out("commit: ok")
 	e.Obs("commit %d txid=%d pages=%d", next.N, next.TxID, len(next.Pages))
 	if r.OnCommitted != nil {
 		r.OnCommitted(next)
